@@ -13,9 +13,12 @@ makes gaps).  The full statement is
     ∀ history p, integrals spec, supplies ν₁ ν₂, Mono ν₁ → Mono ν₂ →
         signature (buildForm cmpR ν₁ p spec) = signature (buildForm cmpR ν₂ p spec)                      (FULL)
 
-where `cmpR` is `cmp_expr` of the current tree and `signature` is `Form.signature()` (Model/Signature.lean).
+where `cmpR` is `cmp_expr` with the repr comparators (`_cmp_terminal_by_repr` for `Constant`, geometric quantities and `Zero`)
+and `signature` is `Form.signature()` (Model/Signature.lean).  Which terminal comparators the tree under test has is
+regenerated on every run (Gen/OrderVariant.lean, `Expr.OrdCfg.live`; `C12_live_variant`): `cmpR` is its `cmp_expr` when they
+are the repr ones (`C12_cmpR_is_live`), `cmpN` when they are the numeric ones of fix_C12_1.diff (`C12_cmpN_is_live`).
 
-(FULL) is FALSE of the current code, for two independent reasons, each proved below with a concrete witness and
+(FULL) is FALSE of the code with the repr comparators / repr hash data, for two independent reasons, each proved below with a concrete witness and
 replayed on the implementation by harness/props/c12.py:
   1. `_cmp_terminal_by_repr` compares the decimal numerals inside `repr` as strings, so `Constant`s, geometric
      quantities and `Zero`s with free indices are ordered differently when a count crosses 9/10, 99/100, ...;
@@ -32,15 +35,37 @@ cannot exhibit it.  It is covered by the subprocess correspondence only (harness
 -/
 import UflVerif.Props.C12.History
 import UflVerif.Props.C12.Renumber
+import UflVerif.Props.C12.Numeric
 
 namespace UflVerif.C12
 open UflVerif CExpr L Sig BState
 
 /-! ## 1. the canonical ordering -/
 
-/-- the model of `cmp_expr` used here is the ordering of Model/Order.lean (the one C29 proves a total preorder and ties
-    to ufl/sorting.py) applied to the rendered expressions -/
-theorem C12_cmpR_is_cmp (a b : CExpr) : cmpR a b = Expr.cmp a.toExpr b.toExpr := cmpR_toExpr a b
+/-- the tree under test has one of the two sets of terminal comparators analysed here: `OrdCfg.live` is regenerated from
+    ufl/sorting.py on every run (Gen/OrderVariant.lean) and this is decided by evaluation.  With `byRepr` live the
+    `_partial` theorems and the counterexamples describe the code; with `numeric` live (fix_C12_1.diff) the `_numeric`
+    theorems do. -/
+theorem C12_live_variant : Expr.OrdCfg.live = .byRepr ∨ Expr.OrdCfg.live = .numeric := by decide
+
+/-- `cmpR` is the ordering of Model/Order.lean (the one C29 proves a total preorder and ties to ufl/sorting.py) with the
+    repr comparators, applied to the rendered expressions -/
+theorem C12_cmpR_is_cmp (a b : CExpr) : cmpR a b = Expr.cmpC .byRepr a.toExpr b.toExpr := cmpR_toExpr a b
+
+/-- `cmpN` is that ordering with the numeric comparators, for expressions whose class names are the real ones
+    (`SaneN`: C29's `Sane`, and a structured geometric quantity / counter-free terminal carries a class name of its kind) -/
+theorem C12_cmpN_is_cmp (a b : CExpr) (ha : SaneN a = true) (hb : SaneN b = true) :
+    cmpN a b = Expr.cmpC .numeric a.toExpr b.toExpr := by
+  simp only [SaneN, Bool.and_eq_true] at ha hb
+  exact cmpN_toExpr a b ha.1 hb.1 ha.2 hb.2
+
+/-- ... hence `cmpR` / `cmpN` is `cmp_expr` of the tree under test (`Expr.cmp`) when that tree has the repr / numeric comparators -/
+theorem C12_cmpR_is_live (hl : Expr.OrdCfg.live = .byRepr) (a b : CExpr) : cmpR a b = Expr.cmp a.toExpr b.toExpr := by
+  rw [C12_cmpR_is_cmp, Expr.cmp, hl]
+
+theorem C12_cmpN_is_live (hl : Expr.OrdCfg.live = .numeric) (a b : CExpr) (ha : SaneN a = true) (hb : SaneN b = true) :
+    cmpN a b = Expr.cmp a.toExpr b.toExpr := by
+  rw [C12_cmpN_is_cmp a b ha hb, Expr.cmp, hl]
 
 /-- the only comparisons that can change: two nodes of one typecode, not both operators, that are not of a kind whose
     comparison provably ignores the renamed numerals (`stableKind`: two multi-indices, two coefficients, two arguments,
@@ -62,18 +87,34 @@ theorem leafStable_of_reprStable {σ : Ren} (h : Mono σ) {S : List CExpr} (hs :
   · exact termCmpR_rename_stable h x y hk
   · exact hs a ha b hb x hx y hy ht hop (by simpa using hk)
 
-/- FULL (false):  ∀ σ, Mono σ → ∀ a b, Expr.cmp (a.rename σ).toExpr (b.rename σ).toExpr = Expr.cmp a.toExpr b.toExpr -/
+/- FULL (false for the repr comparators):
+   ∀ σ, Mono σ → ∀ a b, Expr.cmpC .byRepr (a.rename σ).toExpr (b.rename σ).toExpr = Expr.cmpC .byRepr a.toExpr b.toExpr -/
 
-/-- **partial**: `cmp_expr` gives the same answer after a monotone renaming of all counters, provided the string
-    comparisons of the repr-compared terminals of `a` and `b` do -/
+/-- **partial**: `cmp_expr` with the repr comparators gives the same answer after a monotone renaming of all counters,
+    provided the string comparisons of the repr-compared terminals of `a` and `b` do -/
 theorem C12_cmp_partial {σ : Ren} (h : Mono σ) (a b : CExpr) (hs : ReprStable σ [a, b]) :
-    Expr.cmp (a.rename σ).toExpr (b.rename σ).toExpr = Expr.cmp a.toExpr b.toExpr := by
+    Expr.cmpC .byRepr (a.rename σ).toExpr (b.rename σ).toExpr = Expr.cmpC .byRepr a.toExpr b.toExpr := by
   rw [← cmpR_toExpr, ← cmpR_toExpr]
   exact cmpT_rename termCmpR σ a b (leafStable_of_reprStable h hs a b (by simp) (by simp))
 
 /-- with numeric terminal comparators the ordering is invariant under every monotone renaming: full strength -/
 theorem C12_cmp_numeric {σ : Ren} (h : Mono σ) (a b : CExpr) : cmpN (a.rename σ) (b.rename σ) = cmpN a b :=
   cmpT_rename termCmpN σ a b (fun x _ y _ _ _ => termCmpN_rename h x y)
+
+/-- the same on the rendered expressions, for the ordering the C29 correspondence ties to `ufl.sorting.cmp_expr` -/
+theorem C12_cmp_numeric_rendered {σ : Ren} (h : Mono σ) (a b : CExpr) (ha : SaneN a = true) (hb : SaneN b = true) :
+    Expr.cmpC .numeric (a.rename σ).toExpr (b.rename σ).toExpr = Expr.cmpC .numeric a.toExpr b.toExpr := by
+  rw [← C12_cmpN_is_cmp _ _ (by rw [SaneN_rename]; exact ha) (by rw [SaneN_rename]; exact hb), ← C12_cmpN_is_cmp _ _ ha hb]
+  exact C12_cmp_numeric h a b
+
+/-- **`cmp_expr` of the tree under test**, whichever of the two sets of comparators it has: invariant under every monotone
+    renaming if they are the numeric ones, and under those that leave the string comparisons alone if they are the repr ones -/
+theorem C12_cmp_live {σ : Ren} (h : Mono σ) (a b : CExpr)
+    (hs : (Expr.OrdCfg.live = .numeric ∧ SaneN a = true ∧ SaneN b = true) ∨ (Expr.OrdCfg.live = .byRepr ∧ ReprStable σ [a, b])) :
+    Expr.cmp (a.rename σ).toExpr (b.rename σ).toExpr = Expr.cmp a.toExpr b.toExpr := by
+  rcases hs with ⟨hl, ha, hb⟩ | ⟨hl, hs⟩
+  · rw [Expr.cmp, hl]; exact C12_cmp_numeric_rendered h a b ha hb
+  · rw [Expr.cmp, hl]; exact C12_cmp_partial h a b hs
 
 /-! ### witnesses -/
 
@@ -89,24 +130,24 @@ theorem shift_mono (d : Nat) : Mono (shift d) :=
 /-- constants 8, 9 are ordered 8 < 9; one more object created before them makes them 9, 10 and the order "9" > "10";
     the same for CellVolume on meshes 8, 9 and for Zeros with free index 8, 9 -/
 theorem C12_cmp_counterexample :
-    ¬ (∀ σ : Ren, Mono σ → ∀ a b : CExpr, Expr.cmp (a.rename σ).toExpr (b.rename σ).toExpr = Expr.cmp a.toExpr b.toExpr) := by
+    ¬ (∀ σ : Ren, Mono σ → ∀ a b : CExpr, Expr.cmpC .byRepr (a.rename σ).toExpr (b.rename σ).toExpr = Expr.cmpC .byRepr a.toExpr b.toExpr) := by
   intro hall
   have := hall (shift 1) (shift_mono 1) (kst 8) (kst 9)
   revert this
   decide +kernel
 
 theorem C12_cmp_counterexample_geometry :
-    Expr.cmp (vol 8).toExpr (vol 9).toExpr = .lt ∧ Expr.cmp ((vol 8).rename (shift 1)).toExpr ((vol 9).rename (shift 1)).toExpr = .gt := by
+    Expr.cmpC .byRepr (vol 8).toExpr (vol 9).toExpr = .lt ∧ Expr.cmpC .byRepr ((vol 8).rename (shift 1)).toExpr ((vol 9).rename (shift 1)).toExpr = .gt := by
   decide +kernel
 
 theorem C12_cmp_counterexample_zero :
-    Expr.cmp (CExpr.zero [] [(8, 2)]).toExpr (CExpr.zero [] [(9, 2)]).toExpr = .lt ∧
-    Expr.cmp ((CExpr.zero [] [(8, 2)]).rename (shift 1)).toExpr ((CExpr.zero [] [(9, 2)]).rename (shift 1)).toExpr = .gt := by
+    Expr.cmpC .byRepr (CExpr.zero [] [(8, 2)]).toExpr (CExpr.zero [] [(9, 2)]).toExpr = .lt ∧
+    Expr.cmpC .byRepr ((CExpr.zero [] [(8, 2)]).rename (shift 1)).toExpr ((CExpr.zero [] [(9, 2)]).rename (shift 1)).toExpr = .gt := by
   decide +kernel
 
 /-- the side condition of `C12_cmp_partial` is satisfiable by a non-trivial instance: a shift that stays inside the
     two-digit numerals leaves the comparison of constants 18, 19 and of a sum that contains them alone -/
-example : Expr.cmp ((kst 18).rename (shift 5)).toExpr ((kst 19).rename (shift 5)).toExpr = Expr.cmp (kst 18).toExpr (kst 19).toExpr := by
+example : Expr.cmpC .byRepr ((kst 18).rename (shift 5)).toExpr ((kst 19).rename (shift 5)).toExpr = Expr.cmpC .byRepr (kst 18).toExpr (kst 19).toExpr := by
   decide +kernel
 
 /-- ... and the condition itself is decided by evaluation: constants 18, 19 and CellVolume on meshes 18, 19 inside
@@ -114,9 +155,17 @@ example : Expr.cmp ((kst 18).rename (shift 5)).toExpr ((kst 19).rename (shift 5)
 example : ReprStable (shift 5) [.op .sum [] [kst 18, .op .product [] [vol 18, kst 19]], .op .product [] [kst 19, vol 19]] := by
   decide +kernel
 
-example : Expr.cmp ((CExpr.op .sum [] [kst 18, .op .product [] [vol 18, kst 19]]).rename (shift 5)).toExpr ((CExpr.op .product [] [kst 19, vol 19]).rename (shift 5)).toExpr
-    = Expr.cmp (CExpr.op .sum [] [kst 18, .op .product [] [vol 18, kst 19]]).toExpr (CExpr.op .product [] [kst 19, vol 19]).toExpr :=
+example : Expr.cmpC .byRepr ((CExpr.op .sum [] [kst 18, .op .product [] [vol 18, kst 19]]).rename (shift 5)).toExpr ((CExpr.op .product [] [kst 19, vol 19]).rename (shift 5)).toExpr
+    = Expr.cmpC .byRepr (CExpr.op .sum [] [kst 18, .op .product [] [vol 18, kst 19]]).toExpr (CExpr.op .product [] [kst 19, vol 19]).toExpr :=
   C12_cmp_partial (shift_mono 5) _ _ (by decide +kernel)
+
+/-- non-vacuity of `C12_cmpN_is_cmp` / `C12_cmp_numeric_rendered`: the witnesses above satisfy `SaneN`, and on them the numeric
+    ordering of Model/Order.lean is not changed by the shift that changes the repr ordering -/
+example : SaneN (kst 8) = true ∧ SaneN (vol 9) = true ∧ SaneN (.op .sum [] [kst 18, .op .product [] [vol 18, kst 19]]) = true ∧
+    Expr.cmpC .numeric (kst 8).toExpr (kst 9).toExpr = .lt ∧ Expr.cmpC .numeric ((kst 8).rename (shift 1)).toExpr ((kst 9).rename (shift 1)).toExpr = .lt ∧
+    Expr.cmpC .numeric (vol 8).toExpr (vol 9).toExpr = .lt ∧ Expr.cmpC .numeric ((vol 8).rename (shift 1)).toExpr ((vol 9).rename (shift 1)).toExpr = .lt ∧
+    Expr.cmpC .numeric (CExpr.zero [] [(8, 2)]).toExpr (CExpr.zero [] [(9, 2)]).toExpr = .eq := by
+  decide +kernel
 
 /-! ## 2. the constructors that consult the ordering -/
 
